@@ -720,6 +720,37 @@ func runXCOPYFLAGS(c *Ctx) {
 				}
 			}
 		}
+		// the copy built by a constructor helper that takes the flags as parameters (emptyLike(node.dirty, node.shared))
+		if !ok {
+			for _, ci := range CallsOf(cp) {
+				h := ir.Callee(ci.Common())
+				if h == nil || h == cp || h.Blocks == nil || !isOwn(P, h) {
+					continue
+				}
+				for _, hb := range h.Blocks {
+					for _, hi := range hb.Instrs {
+						st, isSt := hi.(*ssa.Store)
+						if !isSt {
+							continue
+						}
+						fa, isFA := st.Addr.(*ssa.FieldAddr)
+						if !isFA || !isNodePtr(fa.X.Type()) || ir.FieldName(fa.X.Type(), fa.Field) != flag {
+							continue
+						}
+						prm, isP := ir.ResolveCell(st.Val).(*ssa.Parameter)
+						if !isP || prm.Parent() != h || paramIndex(prm) >= len(ci.Common().Args) {
+							continue
+						}
+						a := ci.Common().Args[paramIndex(prm)]
+						if ld, isLd := a.(*ssa.UnOp); isLd && ld.Op == token.MUL {
+							if sfa, isF := ld.X.(*ssa.FieldAddr); isF && ir.ResolveCell(sfa.X) == ssa.Value(src) && ir.FieldName(sfa.X.Type(), sfa.Field) == flag {
+								ok, at = true, ci
+							}
+						}
+					}
+				}
+			}
+		}
 		if ok {
 			c.OK(P.InstrPos(at), fmt.Sprintf("%s copies .%s from its source", cp.Name(), flag), "struct copy keeps the flag", false)
 		} else {
